@@ -48,8 +48,8 @@ def scanItem : QState → Bytes → Bytes × Bytes
     else let r := scanItem .quoted cs; (c :: r.1, r.2)
   | .escaped, c :: cs => let r := scanItem .quoted cs; (c :: r.1, r.2)
 
-/-- delim[2] = " ,\t\r\n" with del = ',' : bytes skipped before an item -/
-def isListDelim (c : UInt8) : Bool := c == 32 || c == 44 || c == 9 || c == 13 || c == 10
+/-- delim[2] with del = ',' : bytes skipped before an item (generated from the source) -/
+def isListDelim (c : UInt8) : Bool := Gen.Reusable.listSkipBytes.contains c
 
 def rtrim (b : Bytes) : Bytes := (b.reverse.dropWhile isSpaceC).reverse
 
